@@ -21,6 +21,8 @@ SIM_INVS = {"SimCore", "SimTrans", "SimItemLook", "SimLook", "SimRedDomain", "AD
 
 def same_productions(g, export):
     mine = sorted((p["lhs"], tuple(p["rhs"])) for p in g["prods"])
+    if any("error" in p["rhs"] for p in g["prods"]) and g.get("ts") and "error" not in g["ts"]:
+        pass
     eg = lp.export_grammar(export)
     theirs = sorted((p["lhs"], tuple(p["rhs"])) for p in eg["prods"] if not p["lhs"].startswith("__"))
     return mine == theirs
